@@ -33,6 +33,10 @@ type c04Case struct {
 	V5  bool    `json:"v5"`
 	RM  int     `json:"rm"`
 	Evs []c04Ev `json:"evs"`
+	// Echo: before the sequence the client under test subscribes (QoS 1) and is sent that many messages which it never
+	// acknowledges: the broker's OWN packet identifiers 1..Echo are in flight towards it - the two directions number
+	// their exchanges independently, what the client sends under those identifiers is not affected
+	Echo int `json:"echo,omitempty"`
 	// Pipe: all packets are written back-to-back to a connection whose client reads slowly (16 bytes of pipe, 2 ms per
 	// read): the broker's writer lags behind its reader; one observed step with all responses in wire order
 	Pipe bool `json:"pipe,omitempty"`
@@ -81,6 +85,9 @@ func (p *c04Prop) Gen(r *Rng, i int, tier string) interface{} {
 			}
 		}
 		c.Evs = append(c.Evs, e)
+	}
+	if i%10 != 9 && r.Chance(30) {
+		c.Echo = 1 + r.Intn(3)
 	}
 	if i%10 == 9 {
 		// the same kind of sequence, pipelined into a connection whose client reads slowly; every topic is authorised and
@@ -149,6 +156,22 @@ func (p *c04Prop) Run(ci interface{}) interface{} {
 	if _, err := pc.Connect(ConnectOpts{ID: "pub", Ver: ver, Clean: true}); err != nil {
 		obs.Err = "pub: " + err.Error()
 		return obs
+	}
+	if c.Echo > 0 && !c.Pipe {
+		_ = pc.Send(mkSubscribe(ver, 900, []string{"echo/t"}, []byte{1}))
+		if pk, err := pc.Recv(5 * time.Second); err != nil || pk.Type() != mqttp.SUBACK {
+			obs.Err = "pub: no suback for the echo subscription"
+			return obs
+		}
+		for k := 0; k < c.Echo; k++ {
+			_ = h.SendL(mkPublish(mqttp.ProtocolV311, "echo/t", []byte{0xEC, byte(k)}, 1, false, uint16(800+k)))
+		}
+		for k := 0; k < c.Echo; k++ {
+			if pk, err := pc.Recv(5 * time.Second); err != nil || pk.Type() != mqttp.PUBLISH {
+				obs.Err = "pub: the echo messages did not arrive"
+				return obs
+			}
+		}
 	}
 	if c.Pipe {
 		pc = b.DialCap(16)
